@@ -529,6 +529,7 @@ Section Queue.
   Definition q_step (st : pq_state) (op : pq_op) : pq_state * pq_obs :=
     match op with
     | Add t p => let '(st', r) := q_add st t p in (st', unit_obs r)
+    | AddBad t e => (st, OErr e)       (* priority = self._get_priority(priority) raises: first statement of add *)
     | Remove t => let '(st', r) := q_remove st t in (st', unit_obs r)
     | Pop d => q_pop st d
     | Peek d => q_peek st d
